@@ -45,6 +45,7 @@ def main(tier, seed):
     tp = tier_params(tier)
     rep = Report(PROP, tier, seed)
     sess = Session(tp["timeout"])
+    sess.keep_smt2 = tier == "thorough"
     Ts = [1, 3, 4] if tier == "quick" else [1, 2, 3, 4, 5, 6]
     Hs = [1, 3] if tier == "quick" else [1, 2, 3, 4, 5]
     rep.bounds = {"gae_T": Ts, "n_step_batch": 2, "n_step_horizon": Hs, "a2c": "T<=3 steps x 2-3 envs, obs dim 2, value MLP hidden [2]",
